@@ -481,17 +481,25 @@ func (e Element) hasChildrenRequiringOwnLine() bool {
 		if _, isTrailer := c.(WhitespaceTrailer); !isTrailer {
 			return true
 		}
-		// An element that is itself written over several lines cannot share a line with its siblings.
+		// An element or Go code block that is itself written over several lines cannot share a line with its siblings.
 		if el, isElement := c.(Element); isElement && el.spansLines() {
+			return true
+		}
+		if gc, isGoCode := c.(GoCode); isGoCode && gc.spansLines() {
 			return true
 		}
 	}
 	return false
 }
 
+// indentsChildren reports whether the element's children are written on their own, indented lines.
+func (e Element) indentsChildren() bool {
+	return e.hasNonWhitespaceChildren() && (e.IndentChildren || e.hasChildrenRequiringOwnLine())
+}
+
 // spansLines reports whether the element is written over more than one line.
 func (e Element) spansLines() bool {
-	return e.IndentAttrs || e.hasConditionalAttribute() || (e.hasNonWhitespaceChildren() && (e.IndentChildren || e.hasChildrenRequiringOwnLine()))
+	return e.IndentAttrs || e.hasConditionalAttribute() || e.indentsChildren()
 }
 
 func (e Element) hasConditionalAttribute() bool {
@@ -585,7 +593,7 @@ func (e Element) Write(w io.Writer, indent int) error {
 		closeAngleBracketIndent = indent
 	}
 	if e.hasNonWhitespaceChildren() {
-		if e.IndentChildren || e.hasChildrenRequiringOwnLine() {
+		if e.indentsChildren() {
 			if err := writeIndent(w, closeAngleBracketIndent, ">\n"); err != nil {
 				return err
 			}
@@ -686,7 +694,7 @@ func isBlockNode(node Node) bool {
 	case ForExpression:
 		return true
 	case Element:
-		return n.IsBlockElement() || n.IndentChildren
+		return n.IsBlockElement() || n.indentsChildren()
 	}
 	return false
 }
@@ -1259,15 +1267,28 @@ func (gc GoCode) Trailing() TrailingSpace {
 }
 
 func (gc GoCode) IsNode() bool { return true }
-func (gc GoCode) Write(w io.Writer, indent int) error {
+
+// formatted returns the gofmt-formatted Go code, or the code as written if it cannot be formatted.
+func (gc GoCode) formatted() []byte {
 	if isWhitespace(gc.Expression.Value) {
-		gc.Expression.Value = ""
+		return nil
 	}
 	source, err := format.Source([]byte(gc.Expression.Value))
 	if err != nil {
-		source = []byte(gc.Expression.Value)
+		return []byte(gc.Expression.Value)
 	}
-	if !gc.Multiline {
+	return source
+}
+
+// spansLines reports whether the code is written over more than one line. gofmt may spread a
+// one-line statement over several lines, e.g. `if x { y() }`.
+func (gc GoCode) spansLines() bool {
+	return gc.Multiline || bytes.Contains(gc.formatted(), []byte("\n"))
+}
+
+func (gc GoCode) Write(w io.Writer, indent int) error {
+	source := gc.formatted()
+	if !gc.spansLines() {
 		return writeIndent(w, indent, `{{ `, string(source), ` }}`)
 	}
 	if err := writeIndent(w, indent, "{{"+string(source)+"\n"); err != nil {
